@@ -23,7 +23,7 @@ RULE = ("schemas over every field family including nested schemas, config-type f
         "inspect.signature(function) minus its first parameter, nothing is written to stdout (captured at file-"
         "descriptor level and through sys.stdout), schema fingerprint and configuration snapshot unchanged; "
         "non-trivial = >= 3 fields and (>= 1 method or virtual field or nested part); distinct = distinct schema")
-REQUIRED = ("repeat_generations_compared", "dynamic_config_with_adhoc_field", "stubs_parsed", "attribute_sets_compared", "init_signatures_compared", "method_signatures_compared",
+REQUIRED = ("bare:empty", "bare:virtual", "bare:methods", "bare:both", "repeat_generations_compared", "dynamic_config_with_adhoc_field", "stubs_parsed", "attribute_sets_compared", "init_signatures_compared", "method_signatures_compared",
             "stdout_captures", "side_effect_checks", "input:schema", "input:config", "input:configtype",
             "methods_with_return_annotation", "schemas_with_configtype_field")
 ASSUMPTIONS = ["functions always name their first (configuration) parameter; positional-only parameters are not generated"]
@@ -68,17 +68,21 @@ def generate(rng, ctx):
     depth = rng.choice([0, 1, 2])
     schema = gen.gen_schema(rng, depth=depth, width=rng.choice([2, 4, 6]), defaults=0.3, ctypes=rng.random() < 0.5,
                             dynamic=0.3)
+    # schemas without any persistent field: empty, only virtual fields, only methods, both
+    bare = rng.choice(["empty", "virtual", "methods", "both"]) if rng.random() < 0.12 else None
+    if bare:
+        schema["fields"] = []
     extra = gen.pick_keys(rng, 6, avoid={ch["key"] for ch in schema["fields"]})
-    for _ in range(rng.choice([0, 1, 2])):
+    for _ in range(rng.choice([0, 1, 2]) if not bare else {"empty": 0, "virtual": 2, "methods": 0, "both": 1}[bare]):
         schema["fields"].insert(rng.randrange(len(schema["fields"]) + 1),
                                 {"kind": "field", "key": extra.pop(), "family": "virtual", "params": {"returns": "v", "setter": rng.random() < 0.3}})
-    for _ in range(rng.choice([0, 1, 2, 3])):
+    for _ in range(rng.choice([0, 1, 2, 3]) if not bare else {"empty": 0, "virtual": 0, "methods": 2, "both": 1}[bare]):
         schema["fields"].insert(rng.randrange(len(schema["fields"]) + 1), gen_method(rng, extra.pop()))
-    if rng.random() < 0.3:
+    if rng.random() < 0.3 and not bare:
         modes = rng.choice([["development", "production"], ["a", "b"], ["test_1", "stage"]])
         schema["fields"].append({"kind": "field", "key": extra.pop(), "family": "appmode",
                                  "params": {"modes": modes, "create_helpers": True}})
-    return {"schema": schema, "name": rng.choice(["AppConfig", "Cfg", "T", "My_Config2"]),
+    return {"schema": schema, "bare": bare, "name": rng.choice(["AppConfig", "Cfg", "T", "My_Config2"]),
             "as": rng.choice(["schema", "config", "configtype"])}
 
 
@@ -135,6 +139,8 @@ def run(case, ctx, res):
     schema = built.schema
     name = case["name"]
     res.count("input:" + case["as"])
+    if case.get("bare"):
+        res.count("bare:" + case["bare"])
     cfg = schema()
     if root.get("dynamic"):
         # fields added on the fly to a dynamic configuration stay with that configuration
